@@ -531,6 +531,48 @@ def inv (l : Line) : IO Unit := do
     | .fuel => "bad(fuel)"
   IO.println s!"spec {id} inverts={verdict}"
 
+/-! ### one InvCDF closure queried thousands of times; Rand through the generic inverse -/
+
+def reuse (l : Line) : IO Unit := do
+  let id := l.id
+  let f (k : String) : Fl := ⟨bitsD (l.getD k)⟩
+  let psB := bitsList (l.getD "ps")
+  let xr := bitsList (l.getD "xr")
+  let xf := bitsList (l.getD "xf")
+  let cs := bitsList (l.getD "cs")
+  let arith := l.getD "arith" == "1"
+  if arith then
+    -- K: call k of the reused closure against the (stateless) model
+    let ptsB := bitsList (l.getD "pts")
+    let (cdf, bl, bh) : (Fl → Fl) × Fl × Fl :=
+      match l.getD "dist" with
+      | "uni" => (Dists.uniCDF (f "a") (f "b"), f "a", f "b")
+      | "sig" =>
+        let s := f "s"
+        (Dists.sigCDF s, ⟨F64.mul (F64.ofInt (-4)) s.bits⟩, ⟨F64.mul (F64.ofInt 4) s.bits⟩)
+      | _ =>
+        let pts : List Fl := ptsB.map Fl.mk
+        (Dists.stepCDF pts, pts.headD ⟨0⟩, pts.getLastD ⟨0⟩)
+    let xs := (Dists.runClosure cdf bl bh 2400 (psB.map Fl.mk)).map showIRes
+    IO.println s!"obs {id} x={showList xs}"
+  -- S: reused closure = fresh closure (sampled and counted over all queries), answers finite,
+  -- CDF(InvCDF(p)) ≈ p
+  let fresh := if (xr.zip xf).all (fun (a, b) => F64.canonNaN a == F64.canonNaN b) then "ok" else
+    match (psB.zip (xr.zip xf)).find? (fun (_, a, b) => a != b) with
+    | some (p, a, b) => s!"bad(p={showB p},reused={showB a},fresh={showB b})" | none => "bad"
+  let allfresh := if l.getD "nmis" == "0" then "ok" else s!"bad({l.getD "nmis"}of{l.getD "nq"})"
+  let finite := if l.getD "nnonfin" == "0" ∧ xr.all F64.isFinite then "ok" else s!"bad({l.getD "nnonfin"}of{l.getD "nq"})"
+  let rt :=
+    if arith then "ok" else
+    if l.getD "nround" != "0" then s!"bad({l.getD "nround"}of{l.getD "nq"})" else
+    match (psB.zip cs).find? (fun (p, c) => !(F64.isFinite c && rabs (toRat c - toRat p) ≤ mkRat 1 (10 ^ 9))) with
+    | some (p, c) => s!"bad(p={showB p},cdf={showB c})" | none => "ok"
+  IO.println s!"spec {id} fresh={fresh} allfresh={allfresh} finite={finite} roundtrip={rt}"
+
+def randK (l : Line) : IO Unit := do
+  let v := if l.getD "nonfinite" == "0" then "ok" else s!"bad({l.getD "nonfinite"}of{l.getD "n"},first={l.getD "firstbad"})"
+  IO.println s!"spec {l.id} finite={v}"
+
 /-! ### NormalDist.InvCDF: float64 instance with log/sqrt/erfc/exp as measured tables -/
 
 def ninv (l : Line) : IO Unit := do
@@ -551,6 +593,8 @@ def handle (l : Line) : IO Unit := do
   | "ncdf" => grid l (toRat (bitsD (l.getD "sigma"))) none
   | "inv" => inv l
   | "ninv" => ninv l
+  | "reuse" => reuse l
+  | "rand" => randK l
   | "sweep" => IO.println s!"spec {l.id} conv=ok"
   | _ => pure ()
 
